@@ -36,7 +36,23 @@ def random_layout(tokens, rnd, tight=0.15):
 
 
 # file names that sort before and after "main" (tables keyed by file name keep the main file first, in the middle or last)
-NAME_STYLES = ["%s%d", "%s%d", "lib/%s_%d.theo", "a rather long directory/%s%d.theo", "z_%s%d", "zz last/%s_%d.theo", "Z%s%d", "n%s%d"]
+NAME_STYLES = ["%s%d", "%s%d", "lib/%s_%d.theo", "a rather long directory/%s%d.theo", "z_%s%d", "zz last/%s_%d.theo", "Z%s%d", "n%s%d",
+               "dir\\%s%d.theo", "C:\\Users\\%s\\%d\\", "gr\xf6\xdfe_%s%d.theo", "\xe9t\xe9/%s%d"]   # backslashes and 8-bit bytes in names
+# names that differ from one another only in letter case, and the empty name
+TWIN_NAMES = ["lib", "Lib", "LIB", "lIb", "liB"]
+
+
+def file_name(rnd, prefix, k, twins):
+    if twins == "case":
+        return TWIN_NAMES[k % len(TWIN_NAMES)]
+    if twins == "empty" and k == 0:
+        return ""
+    return rnd.choice(NAME_STYLES) % (prefix, k)
+
+
+def name_mode(rnd):
+    q = rnd.random()
+    return "case" if q < 0.12 else ("empty" if q < 0.2 else None)
 
 
 def split_lines(lines, rnd, max_files=3, prefix="inc", repeat=False):
@@ -44,13 +60,14 @@ def split_lines(lines, rnd, max_files=3, prefix="inc", repeat=False):
     (nested includes possible).  -> (files dict, main name)"""
     items = [" ".join(l) for l in lines]
     files = {}
+    twins = name_mode(rnd)
     nfiles = rnd.randint(1, max_files)
     for k in range(nfiles):
         if len(items) < 3:
             break
         i = rnd.randrange(0, len(items) - 1)
         j = rnd.randint(i + 1, min(len(items), i + rnd.choice([1, 2, 3, 6, 12])))
-        name = rnd.choice(NAME_STYLES) % (prefix, k)
+        name = file_name(rnd, prefix, k, twins)
         files[name] = "\n".join(items[i:j])
         items[i:j] = ['%s "%s"' % (rnd.choice(L.SPELL[L.INCLUDE]), name)]
     if repeat:
@@ -79,13 +96,14 @@ def split_tokens(tokens, rnd, max_files=3, prefix="f", layout=True):
     """token ranges move into included files, every file in a random layout"""
     items = list(tokens)
     files = {}
+    twins = name_mode(rnd)
     nfiles = rnd.randint(0, max_files)
     for k in range(nfiles):
         if len(items) < 3:
             break
         i = rnd.randrange(0, len(items) - 1)
         j = rnd.randint(i + 1, min(len(items), i + rnd.choice([1, 1, 2, 5, 20])))
-        name = rnd.choice(NAME_STYLES) % (prefix, k)
+        name = file_name(rnd, prefix, k, twins)
         files[name] = items[i:j]
         items[i:j] = [("INC", name)]
 
